@@ -35,13 +35,14 @@ var (
 	P1 = addr20("provider1")
 	P2 = addr20("provider2")
 	P3 = addr20("provider3")
+	P4 = addr20("provider4")
 	Pp = sdk.AccAddress(P1[:1])
 	W1 = addr20("withdraw1")
 	XX = addr20("stranger")
 )
 
 var addrNames = map[string]sdk.AccAddress{
-	"AU": AU, "O1": O1, "O2": O2, "C1": C1, "C2": C2, "P1": P1, "P2": P2, "P3": P3, "Pp": Pp, "W1": W1, "XX": XX,
+	"AU": AU, "O1": O1, "O2": O2, "C1": C1, "C2": C2, "P1": P1, "P2": P2, "P3": P3, "P4": P4, "Pp": Pp, "W1": W1, "XX": XX,
 }
 
 func A(name string) sdk.AccAddress {
@@ -182,9 +183,15 @@ func (a Action) IsE() bool { return a.Kind == "E" }
 
 func actE() Action { return Action{Name: "E", Kind: "E", Tmpl: -1} }
 
+// definitions differ in tags and descriptions from one name to the next (the first has both, the second neither)
 func actDefine(name string, author string) Action {
+	desc, adesc := "d-"+name, "ad-"+name
+	tags := []string{"t-" + name, "common"}
+	if len(name)%2 == 0 {
+		desc, adesc, tags = "", "", nil
+	}
 	return Action{Name: fmt.Sprintf("define(%s,%s)", name, author), Kind: "define", Svc: name, Signer: A(author), Tmpl: -1,
-		Msg: st.NewMsgDefineService(name, "d", nil, A(author), "ad", schemasOK)}
+		Msg: st.NewMsgDefineService(name, desc, tags, A(author), adesc, schemasOK)}
 }
 
 func actBind(svc, prov, owner string, dep int64, pr string, qos uint64) Action {
